@@ -4,6 +4,7 @@
 package main
 
 import (
+	"sync/atomic"
 	"bufio"
 	"encoding/json"
 	"flag"
@@ -15,6 +16,7 @@ import (
 	"time"
 
 	"verifharness/enc"
+	"verifharness/sched"
 )
 
 // Report is what a harness run tells the check driver.
@@ -146,8 +148,13 @@ func Run(t *testing.T) {
 	rep := &Report{Property: name, Tier: *tier, Seed: *seed, Stats: map[string]interface{}{}, Samples: []interface{}{}, Violations: []Violation{}, Known: []Violation{}}
 	ctx := &Ctx{T: t, Tier: *tier, Seed: *seed, Rng: rand.New(rand.NewSource(*seed)), Out: w, Rep: rep, Replay: *replay, seen: map[string]struct{}{}}
 	start := time.Now()
+	sched.VaryProcs = *tier == "thorough"
 	fn(ctx)
 	rep.WallS = time.Since(start).Seconds()
+	sched.ProcsUsed.Range(func(k, v interface{}) bool {
+		rep.Stats[fmt.Sprintf("bubbles_with_gomaxprocs_%d", k.(int))] = int(v.(*atomic.Int64).Load())
+		return true
+	})
 	w.Flush()
 	if *report != "" {
 		b, _ := json.MarshalIndent(rep, "", " ")
